@@ -2,6 +2,7 @@
   C14 — round-robin probing.
 -/
 import FocaModel.Proofs.SendAll
+import FocaModel.Props.C13
 namespace Foca.C14
 open Foca
 
